@@ -21,6 +21,9 @@ MUTANTS = [
     dict(name='M02_first_retry_without_delay', targets=['C12'], file=MGR,
          old="                await asyncio.sleep(retry_policy.delay)\n",
          new="                await asyncio.sleep(retry_policy.delay if n_attempts > 2 else 0)\n"),
+    dict(name='M23_retry_backoff', targets=['C12'], file=MGR,
+         old="                await asyncio.sleep(retry_policy.delay)\n",
+         new="                await asyncio.sleep(retry_policy.delay * (n_attempts - 1))\n"),
     dict(name='M03_exception_filter_ignored', targets=['C12'], file=MGR,
          old="            except retry_policy.exceptions as error:  # noqa: PERF203\n",
          new="            except Exception as error:  # noqa: PERF203\n"),
